@@ -110,7 +110,7 @@ def main():
     # ---- native cross-validation of the interpreter: re-run witness models of sequential harnesses as machine code
     nat_ok = 0; nat_bad = []
     cands = [h for h in hs if not h.get('threads') and results.get(h['name'], {}).get('verdict') == 'pass' and results[h['name']].get('native_inputs') is not None]
-    cands = [h for h in cands if 'vf_thread_body' not in open(os.path.join(ROOT, 'harness', h['src'])).read()][:(1 if tier == 'quick' else 4)]
+    cands = [h for h in cands if not h.get('no_native') and 'vf_thread_body' not in open(os.path.join(ROOT, 'harness', h['src'])).read()][:(1 if tier == 'quick' else 4)]
     nprocs = []
     for h in cands:
         nprocs.append((h, subprocess.Popen([sys.executable, os.path.join(ROOT, 'tools', 'native_validate.py'), os.path.join(wd, h['name'] + '.result.json'), os.path.join(wd, h['name'] + '.cfg.json')],
